@@ -227,8 +227,10 @@ Proof.
     set (s0 := push5 s (Ev5In pk)) in *. clearbody s0. clear Hr I.
     destruct pk; cbn [res_state5] in Hn; try (inversion Hn; subst s'; left; exact Hr1).
     + (* connack *) left.
-      destruct (handle_incoming_connack5_eff s0 code receive_max topic_alias_max) as [[_ He] | [_ [s2 [He [Hp [Hr [Hc _]]]]]]];
-        rewrite He in Hn; cbn [res_state5] in Hn; inversion Hn; subst s'; [exact Hr1|].
+      destruct (handle_incoming_connack5_eff s0 code receive_max topic_alias_max)
+        as [[_ He] | [[_ [_ He]] | [_ [_ [s2 [He [Hp [Hr [Hc _]]]]]]]]];
+        rewrite He in Hn; cbn [res_state5] in Hn; inversion Hn; subst s';
+        [exact Hr1|revert Hr1; apply holds5_slots_eq; apply alias_taken5_slots|].
       destruct r; cbn [holds5] in *; rewrite ?Hp, ?Hr, ?Hc; exact Hr1.
     + (* publish *) left. unfold handle_incoming_publish5, outgoing_puback5, outgoing_pubrec5, outgoing_disconnect5 in Hn.
       destruct (q_alias p) as [a|]; [destruct (negb (q_topic p =? 0)); [|destruct (iset_mem (s5_aliases s0) a)]|];
